@@ -88,6 +88,7 @@ func (p *ProcessConfig) Compare(another *ProcessConfig) bool {
 		p.Disabled != another.Disabled ||
 		p.IsDaemon != another.IsDaemon ||
 		p.Command != another.Command ||
+		p.Executable != another.Executable ||
 		p.LogLocation != another.LogLocation ||
 		p.ReadyLogLine != another.ReadyLogLine ||
 		p.DisableAnsiColors != another.DisableAnsiColors ||
